@@ -454,6 +454,8 @@ def run_property(pid, tier, rep):
         insts = l1_align(rep, ["2x2", "2x2de2", "3x1", "3x1hi", "4x1hi"] if quick else list(UNIVERSES), emit=True, sample_mult=1 if quick else 4)
         recs = l2_records(pa, insts, both, ["partition"], rng, violations, limit=380 if quick else None)
         recs += l3_records(pa, rng, 200 if quick else 3000, both, ["partition"], violations, cands=False, recompute=False)
+        from . import cands
+        recs += cands.planted_records(pa, rng, quick, backends=("CBC",) if quick else ("CBC", "GLPK_MI"))
     elif pid == "C03":
         insts = l1_align(rep, ["3x1", "4x1"] if quick else ["2x2", "3x1", "3x2", "4x1", "5x1"], emit=True)
         recs = l2_records(pa, insts, ["CBC"], ["partition", "soft"], rng, violations, limit=150 if quick else 1500)
